@@ -132,6 +132,8 @@ pub fn configs(tier: Tier) -> Vec<Box<dyn Config>> {
     let quick = tier == Tier::Quick;
     // faults in every callback of the in-place rehashes of the layout grammar (several homes and tags, displaced elements)
     v.push(Box::new(super::rehash::RehashFaults { tier }));
+    // zero-sized elements with a ledger: panicking Clone, panicking hasher during an in-place rehash
+    v.push(Box::new(super::c02::ZstTables { tier }));
     // HashSet wrappers
     v.push(mk_set(Plan::Zero, if quick { 5 } else { 8 }, tier, ""));
     // HashTable: closed space, and scripted full / tombstone-saturated tables (in-place rehash on the next insertion)
